@@ -36,6 +36,10 @@ Proof. exact rows_sound_spec. Qed.
 Theorem C20_transitions_consume : transitions_consume = true.
 Proof. vm_compute. reflexivity. Qed.
 
+(* ... and returns a region whose type state is the one the transition's name says (read from the impl's result type) *)
+Theorem C20_transitions_reach_declared_state : transitions_target_ok = true.
+Proof. vm_compute. reflexivity. Qed.
+
 Theorem C20_stream : stream_ok = true.
 Proof. vm_compute. reflexivity. Qed.
 
